@@ -11,7 +11,7 @@
    (C06_Hist.v, C06_Order.v), and the guards of insert / reset / the valid() gate are regenerated
    from the sources and linked to the model (C06_GenTie.v). *)
 From Coq Require Import List ZArith Lia Bool Sorted.
-From Muduo Require Import Gen_Consts Gen_C06 C06_Model C06_Proofs C06_Hist C06_Order C06_GenTie.
+From Muduo Require Import Gen_Consts Gen_C06 C06_Model C06_Proofs C06_Hist C06_Order C06_GenTie C06_Live C06_Marshal.
 Import ListNotations.
 Local Open Scope Z_scope.
 
@@ -60,6 +60,11 @@ Theorem C06_run_of_added : forall c ops st evs, run (init c) ops = Ok (st, evs) 
   forall s dl now t, In (ERun s dl now t) evs -> exists a w iv, In (EAdd s a w iv) evs.
 Proof. exact run_of_added. Qed.
 Print Assumptions C06_run_of_added.
+(* ... and that add precedes the run in the trace (prefix-closed form). *)
+Theorem C06_add_precedes_run : forall c ops st evs, run (init c) ops = Ok (st, evs) ->
+  forall l1 s dl now t l2, evs = l1 ++ ERun s dl now t :: l2 -> exists a w iv, In (EAdd s a w iv) l1.
+Proof. exact add_precedes_run. Qed.
+Print Assumptions C06_add_precedes_run.
 Theorem C06_add_unique : forall c ops st evs, run (init c) ops = Ok (st, evs) ->
   forall s a w iv a' w' iv', In (EAdd s a w iv) evs -> In (EAdd s a' w' iv') evs -> a = a' /\ w = w' /\ iv = iv'.
 Proof. exact add_unique. Qed.
@@ -133,6 +138,72 @@ Theorem C06_progress : forall c ops st evs script st' ev d a r x, run (init c) o
     armed st' = Some (Z.max d (clk st + TimerQueue_floor_val)))).
 Proof. exact progress. Qed.
 Print Assumptions C06_progress.
+
+(* Progress over two expiries, as one statement: the timerfd is readable (x <= clock) with a timer pending;
+   the loop processes the expiry, sleeps until the timerfd is readable again (only the clock moves, up to
+   at least the new armed instant) and processes the next expiry: the earliest timer (d, a) has run in the
+   first or in the second. *)
+Theorem C06_progress_two : forall c ops st evs s1 st1 ev1 dt st2 e2 s2 st3 ev2 d a r x,
+  run (init c) ops = Ok (st, evs) -> timers st = (d, a) :: r -> armed st = Some x -> x <= clk st ->
+  fire st s1 = Ok (st1, ev1) ->
+  step st1 (Cb (CTick dt)) = Ok (st2, e2) -> (forall x1, armed st1 = Some x1 -> x1 <= clk st2) ->
+  fire st2 s2 = Ok (st3, ev2) ->
+  exists o, hget a (heap st) = Some o /\
+    ((exists t, In (ERun (o_seq o) d (clk st) t) ev1) \/ (exists t, In (ERun (o_seq o) d (clk st2) t) ev2)).
+Proof. exact progress_two. Qed.
+Print Assumptions C06_progress_two.
+
+(* Liveness ("every registered timer does run while the loop keeps running").  The environment env chooses
+   EVERY step (loop events with arbitrary callback scripts, clock ticks, foreign micro-steps); assumed
+   about it: the timerfd contract -- a timer pending, the timerfd armed for x, the clock at or past x =>
+   the loop's next event is handleRead -- and that it issues no cancel of A's id.  After ANY number n of
+   its steps: A has run under its deadline, or A is still registered, the timerfd is armed for
+   x <= max(dA, arm instant + floor), and once the clock has reached x and dA the next step is an expiry
+   that succeeds and runs A.  C06_liveness_bound: the FIRST expiry processed at or after dA runs A, i.e.
+   A runs within one Fire step after its deadline. *)
+Theorem C06_liveness : forall (env : nat -> state -> op),
+  (forall i st x, timers st <> [] -> armed st = Some x -> x <= clk st -> exists script, env i st = Fire script) ->
+  forall c ops st evs a oA, run (init c) ops = Ok (st, evs) ->
+  hget a (heap st) = Some oA -> In (o_exp oA, a) (timers st) ->
+  existsb (pf_cancels a (o_seq oA)) (pending st) = false ->
+  (forall j st', op_cancels a (o_seq oA) (env j st') = false) ->
+  forall n stn evn, exec env n 0 st = Ok (stn, evn) ->
+  (exists nA tA, In (ERun (o_seq oA) (o_exp oA) nA tA) evn) \/
+  (hget a (heap stn) = Some oA /\ In (o_exp oA, a) (timers stn) /\
+   exists x, armed stn = Some x /\ x <= Z.max (o_exp oA) (arm_at stn + TimerQueue_floor_val) /\
+     (x <= clk stn -> o_exp oA <= clk stn ->
+      exists script st' ev' t, env n stn = Fire script /\ exec env 1 n stn = Ok (st', ev') /\
+                               In (ERun (o_seq oA) (o_exp oA) (clk stn) t) ev')).
+Proof. exact liveness. Qed.
+Print Assumptions C06_liveness.
+Theorem C06_liveness_bound : forall (env : nat -> state -> op) c ops st evs a oA, run (init c) ops = Ok (st, evs) ->
+  hget a (heap st) = Some oA -> In (o_exp oA, a) (timers st) ->
+  existsb (pf_cancels a (o_seq oA)) (pending st) = false ->
+  (forall j st', op_cancels a (o_seq oA) (env j st') = false) ->
+  forall k stk evk script st' ev', exec env k 0 st = Ok (stk, evk) -> env k stk = Fire script -> o_exp oA <= clk stk ->
+  step stk (Fire script) = Ok (st', ev') ->
+  exists nA tA, In (ERun (o_seq oA) (o_exp oA) nA tA) (evk ++ ev').
+Proof. exact liveness_bound. Qed.
+Print Assumptions C06_liveness_bound.
+
+(* "However timers are added (from any thread ...)": a foreign-thread add is CFNew (new Timer, id known) ;
+   CFEnq (hand-off).  Its first micro-step hands out an id that names the new object; the doPendingFunctors
+   that processes the hand-off registers the object under that id (unless a cancel of the id is queued too),
+   and from then on every theorem above applies to it.  All invariants hold in every interleaving of these
+   micro-steps with loop events, callbacks and user functors (they are ops of the same model). *)
+Theorem C06_foreign_add_id : forall st w iv a st' ev, cb_step st (CFNew w iv a) = Ok (st', ev) ->
+  ev = [EAdd (next_seq st + 1) a w iv] /\ hget a (heap st') = Some (mkT (next_seq st + 1) w iv) /\
+  hget a (heap st) = None /\ In a (inflight st') /\ pending st' = pending st /\ timers st' = timers st.
+Proof. exact foreign_new_id. Qed.
+Print Assumptions C06_foreign_add_id.
+Theorem C06_foreign_add_registers : forall c ops st evs a o st' ev, run (init c) ops = Ok (st, evs) ->
+  In (PAdd a) (pending st) -> hget a (heap st) = Some o ->
+  existsb (pf_cancels a (o_seq o)) (pending st) = false ->
+  step st RunPending = Ok (st', ev) ->
+  hget a (heap st') = Some o /\ In (o_exp o, a) (timers st') /\ In (a, o_seq o) (active st') /\
+  (forall dl now t, ~ In (ERun (o_seq o) dl now t) ev).
+Proof. exact foreign_add_registers. Qed.
+Print Assumptions C06_foreign_add_registers.
 
 (* Deadline order.  A is registered under deadline dA = o_exp oA at a reachable state.  In EVERY
    continuation, every callback filed under a later deadline is preceded by A's callback filed under
@@ -251,3 +322,40 @@ Example C06_deadline_order_nonvacuous :
   | _ => False
   end.
 Proof. vm_compute. repeat split; auto. eexists; reflexivity. Qed.
+
+(* non-vacuity of C06_liveness: an environment that satisfies the timerfd contract (it fires as soon as a
+   pending timer's arming is due and lets 37 us pass otherwise) and never cancels; a timer registered under
+   deadline 1500 at clock 1000 has not run after 13 steps and has run after 14 *)
+Definition demo_env (i : nat) (st : state) : op :=
+  match timers st, armed st with
+  | _ :: _, Some x => if x <=? clk st then Fire [] else Cb (CTick 37)
+  | _, _ => Cb (CTick 37)
+  end.
+Example C06_liveness_nonvacuous :
+  (forall i st x, timers st <> [] -> armed st = Some x -> x <= clk st -> exists script, demo_env i st = Fire script) /\
+  (forall a s j st', op_cancels a s (demo_env j st') = false) /\
+  match run (init 1000) [Cb (CAdd 1500 0 10)] with
+  | Ok (st, _) =>
+      match exec demo_env 13 0 st, exec demo_env 15 0 st with
+      | Ok (s13, e13), Ok (s15, e15) => rlog e13 = [] /\ In (1500, 10) (timers s13) /\ rlog e15 = [(1, 1500, 1518)]
+      | _, _ => False end
+  | _ => False end.
+Proof.
+  split; [|split].
+  - intros i st x NE A L. unfold demo_env. destruct (timers st); [contradiction|]. rewrite A.
+    destruct (Z.leb_spec x (clk st)); [eauto|lia].
+  - intros a s j st'. unfold demo_env. destruct (timers st'); [reflexivity|]. destruct (armed st') as [x|]; [|reflexivity].
+    destruct (x <=? clk st'); reflexivity.
+  - vm_compute. auto.
+Qed.
+
+(* non-vacuity of the foreign-add theorems: micro-steps of two foreign adds interleaved (allocation order
+   differs from hand-off order), a user functor between them that performs another foreign micro-step *)
+Example C06_foreign_add_nonvacuous :
+  match run (init 1000) [Cb (CFNew 2000 0 10); Cb (CFNew 1800 0 20); Cb (CFEnq 20); Cb (CQueue [CFEnq 10; CTick 5]); RunPending] with
+  | Ok (st, evs) => In (EAdd 1 10 2000 0) evs /\ In (EAdd 2 20 1800 0) evs /\ timers st = [(1800, 20)] /\
+                    pending st = [PAdd 10] /\ inflight st = [] /\ armed st = Some 1800 /\
+      match run st [RunPending; Cb (CTick 1000); Fire []] with
+      | Ok (st2, ev2) => rlog ev2 = [(2, 1800, 2005); (1, 2000, 2005)] | _ => False end
+  | _ => False end.
+Proof. vm_compute. auto 10. Qed.
